@@ -14,6 +14,9 @@ F_HI = 8_000_000_000
 
 
 def drive(ctx):
+    from .. import suite
+
+    suite.trace_suite(ctx)      # the repository's own tests, recorded by the external tracer
     from .. import gr
 
     gr.replay(ctx)          # behaviours of the Session state machine, real objects threaded
